@@ -6,8 +6,8 @@ from .c03 import report_compile_failures
 
 PROP = "C05"
 # depth of the exhaustive exploration per number of enabled variants
-SIZES = dict(quick=dict(depth=lambda n: 3 if n <= 4 else 2, steps=150, mcN=5, mcH=2, W=4),
-             thorough=dict(depth=lambda n: 5 if n <= 2 else 4 if n <= 5 else 3, steps=600, mcN=7, mcH=3, W=5))
+SIZES = dict(quick=dict(depth=lambda n: 3 if n <= 4 else 2 if n <= 20 else 1, steps=150, mcN=5, mcH=2, W=4),
+             thorough=dict(depth=lambda n: 5 if n <= 2 else 4 if n <= 5 else 3 if n <= 20 else 1, steps=600, mcN=7, mcH=3, W=5))
 
 
 def canary(grp):
@@ -58,6 +58,9 @@ def definitions(rng):
         pos = set(rng.sample(range(total), total - n_en))
         defs.append(IG.shape(rng, did, total, [1 if i in pos else 0 for i in range(total)], generics=rng.choice(["none", "tywhere", "tyconst"]) if n_en else "none"))
         did += 1
+    # sizes around the limits of narrow integers: 200 enabled variants (128..254), 300 with some disabled (> 255)
+    defs.append(IG.shape(rng, did, 200, [0] * 200, kinds="unit")); did += 1
+    defs.append(IG.shape(rng, did, 300, [1 if i % 13 == 4 else 0 for i in range(300)], kinds="unit")); did += 1
     return defs
 
 
